@@ -178,6 +178,11 @@ def replay_history(arg):
                 # overwritten by a later request for the same path, so the file is only read when it was just produced
                 body = {k: v for k, v in result.result.items() if k not in ('metadata', 'Simulation Metadata')}
                 rec['text'] = json.dumps(body, sort_keys=True, default=str, indent=0)
+                try:    # the JSON the run wrote next to its report (read only by the reference runs: one request per process)
+                    with open(result.json_output_file_path) as jf:
+                        rec['json_file'] = json.dumps(json.load(jf), sort_keys=True, default=str, indent=0)
+                except (OSError, ValueError) as e:
+                    rec['json_file'] = f'unreadable: {type(e).__name__}'
             rec['outcome'] = 'ok'
         except BaseException as e:  # noqa
             rec['outcome'] = 'raised'
@@ -254,6 +259,18 @@ def judge(history, out, refs, res):
 
 def task(payload):
     res = check.new_result()
+    if payload.get('kind') == 'refs':
+        for dd in payload['disagreements']:
+            what = {'json': 'json_file', 'text': 'result', 'outcome': 'outcome'}[dd['part']]
+            check.fail(res, f'depends_on_hash_seed_or_directory/{what}/{dd["kind"]}', f'request {dd["kind"]} alone in a pristine interpreter: {what} under {dd["env"]} differs from '
+                       f'PYTHONHASHSEED=0, directory A: {dd["diff"][0]!r} vs {dd["diff"][1]!r}')
+        res['execs'] += 3 * payload['n_kinds']
+        res['accepted'] += 1
+        d = check.digest(['refs', payload['n_kinds']])
+        res['states'].append(d)
+        res['nontrivial'].append(d)
+        res['sample'] = {'isolated_runs_across_interpreters': {'requests': payload['n_kinds'], 'hash_seeds': [0, 1, 12345], 'directories': ['A', 'B']}}
+        return res
     refs = payload['refs']
     for h in payload['histories']:
         tag = runner.fork_exec(replay_history, {'history': h, 'start': payload.get('start', 'A')}, timeout=900)
@@ -279,10 +296,18 @@ def plan(tier, seed):
     outs = compute_references(kinds)
     # (iii) references agree across hash seeds and starting directories
     plan.ref_disagreements = []
+    ref_details = []
+    ref_env = [('PYTHONHASHSEED=0, directory A'), ('PYTHONHASHSEED=1, directory B'), ('PYTHONHASHSEED=12345, directory A')]
     for k in kinds:
-        for o in outs[1:]:
+        for oi, o in enumerate(outs[1:], 1):
             if o[k] != outs[0][k]:
                 plan.ref_disagreements.append(k)
+                for part in ('outcome', 'text', 'json'):
+                    a, b = outs[0][k].get(part), o[k].get(part)
+                    if a != b:
+                        al, bl = str(a).splitlines(), str(b).splitlines()
+                        dl = next(((x, y) for x, y in zip(al, bl) if x != y), (f'{len(al)} lines', f'{len(bl)} lines'))
+                        ref_details.append({'kind': k, 'part': part, 'env': ref_env[oi], 'diff': [dl[0][:120], dl[1][:120]]})
     refs = outs
     H = list(histx.histories(events, 2))
     H += [h for h in histx.histories(EVENTS_L3, 3) if len(h) == 3]
@@ -290,7 +315,8 @@ def plan(tier, seed):
         H = list(histx.histories(events, 3))
         have = {tuple(h) for h in H}
         H += [h for h in histx.histories(EVENTS_WIDE, 2) if tuple(h) not in have]
-    P = []
+    # the isolated runs themselves, compared across interpreters: result, and the JSON file next to the report, under three hash seeds / two directories
+    P = [{'kind': 'refs', 'disagreements': ref_details, 'n_kinds': len(kinds)}]
     B = 6
     slim = [{k: {'outcome': v['outcome'], 'text': v.get('text')} for k, v in outs[0].items()}]
     for i in range(0, len(H), B):
